@@ -268,7 +268,14 @@ class MapperEnv(object):
     """A recording connection registered with cqlengine under a private name + model classes per key type list."""
     CONN = "verif_c38"
 
-    def __init__(self, protocol_version=4):
+    def __init__(self, protocol_version=4, fresh=False):
+        """fresh=True: start a new "application": the cassandra.cqlengine modules are imported anew, so that the
+        column / model classes (and whatever they remember at class level) are those of a process that has not used
+        the mapper yet.  Within one MapperEnv everything is shared, as in an application."""
+        if fresh:
+            import sys
+            for name in [m for m in sys.modules if m == "cassandra.cqlengine" or m.startswith("cassandra.cqlengine.")]:
+                del sys.modules[name]
         repo_import("cassandra.cluster")            # installs the reactor shim cassandra.cluster needs to be importable
         self.connection = repo_import("cassandra.cqlengine.connection")
         self.columns = repo_import("cassandra.cqlengine.columns")
